@@ -1,8 +1,6 @@
 (* The recogniser of FragParser.v is sound and complete for the inductive grammar of Grammar.v:
-     sp_pattern_sound    : sp_pattern u l = SOk tt r         -> Pattern u l            (any l, both modes)
-     sp_pattern_complete : Pattern u l -> chars_ok u l = true -> sp_pattern u l = SOk tt []
-   (chars_ok is only used to know that the single-character atoms are not `]` `{` `}`, which Annex B admits as
-   ExtendedPatternCharacter without u). *)
+     sp_pattern_sound    : sp_pattern u l = SOk tt r -> Pattern u l            (any l, both modes)
+     sp_pattern_complete : Pattern u l -> sp_pattern u l = SOk tt [] *)
 From Coq Require Import List NArith Bool Lia PeanoNat.
 From V Require Import Regex.Grammar Regex.FragParser.
 Import ListNotations.
@@ -22,56 +20,171 @@ Proof.
   destruct (N.eqb_spec c g_plus) as [->|_]; [destruct u; discriminate|].
   destruct (N.eqb_spec c g_question) as [->|_]; [destruct u; discriminate|]. reflexivity.
 Qed.
-(* the condition under which a single-character atom is a non-syntax character *)
-Definition cok (u : bool) (c : N) : Prop := u = true \/ no_brace c = true.
-Lemma frag_pattern_char u c : cok u c -> pattern_char u c = true -> syntax_character c = false.
+(* the units that are an ExtendedPatternCharacter but not a PatternCharacter *)
+Lemma ext_syntax_cases c : extended_pattern_character c = true -> syntax_character c = true ->
+  c = g_lbrace \/ c = g_rbrace \/ c = g_rbracket.
 Proof.
-  intros [->|Hb] Hp; [cbn in Hp; apply negb_true_iff in Hp; exact Hp|].
-  destruct u; [cbn in Hp; apply negb_true_iff in Hp; exact Hp|].
-  unfold pattern_char, extended_pattern_character in Hp. unfold no_brace in Hb. unfold syntax_character.
-  cbn [existsb] in *. apply negb_true_iff in Hp, Hb.
+  unfold extended_pattern_character, syntax_character. cbn [existsb]. intros He Hs. apply negb_true_iff in He.
   repeat match goal with H : (_ || _)%bool = false |- _ => apply orb_false_iff in H; destruct H end.
-  repeat match goal with Hc : (_ =? _) = false |- _ => rewrite Hc; clear Hc end. reflexivity.
+  repeat match goal with Hc : (_ =? _) = false |- _ => rewrite Hc in Hs; clear Hc end.
+  cbn [orb] in Hs. repeat (apply orb_true_iff in Hs; destruct Hs as [Hs|Hs]); try discriminate Hs;
+    apply N.eqb_eq in Hs; auto.
 Qed.
 
-Definition noq (r : list N) : Prop := match r with c :: _ => is_quant_char c = false | [] => True end.
+(* ---- decimal digits and the braced quantifier ---- *)
+Definition digit (d : N) : Prop := decimal_digit d = true.
+Definition nodigit (r : list N) : Prop := match r with c :: _ => decimal_digit c = false | [] => True end.
+Lemma span_digits_spec l : l = fst (span_digits l) ++ snd (span_digits l) /\ Forall digit (fst (span_digits l)) /\
+  nodigit (snd (span_digits l)).
+Proof.
+  induction l as [|c l IH]; cbn [span_digits]; [repeat split; constructor|].
+  destruct (decimal_digit c) eqn:Ec.
+  - destruct (span_digits l) as [ds r']. cbn [fst snd] in *. destruct IH as [IH1 [IH2 IH3]]. repeat split.
+    + cbn [app]. f_equal. exact IH1.
+    + constructor; assumption.
+    + exact IH3.
+  - cbn [fst snd]. repeat split; [constructor|exact Ec].
+Qed.
+Lemma span_digits_app ds r : Forall digit ds -> nodigit r -> span_digits (ds ++ r) = (ds, r).
+Proof.
+  intros Hd Hr. induction Hd as [|d ds Hd _ IH]; cbn [app].
+  - destruct r as [|c r]; [reflexivity|]. cbn [span_digits]. cbn in Hr. rewrite Hr. reflexivity.
+  - cbn [span_digits]. rewrite Hd. rewrite IH. reflexivity.
+Qed.
+Lemma dec_value_snoc ds d : dec_value (ds ++ [d]) = 10 * dec_value ds + (d - 48).
+Proof. unfold dec_value. rewrite fold_left_app. reflexivity. Qed.
+Lemma DecimalDigits_spec ds v : DecimalDigits ds v -> ds <> [] /\ Forall digit ds /\ dec_value ds = v.
+Proof.
+  induction 1 as [d Hd|ds v d _ [IH1 [IH2 IH3]] Hd].
+  - repeat split; [discriminate|constructor; [exact Hd|constructor]].
+  - repeat split.
+    + destruct ds; discriminate.
+    + apply Forall_app. split; [exact IH2|constructor; [exact Hd|constructor]].
+    + rewrite dec_value_snoc, IH3. reflexivity.
+Qed.
+Lemma DecimalDigits_intro ds : ds <> [] -> Forall digit ds -> DecimalDigits ds (dec_value ds).
+Proof.
+  induction ds as [|d ds IH] using rev_ind; [intros H; contradiction|]. intros _ Hf.
+  apply Forall_app in Hf. destruct Hf as [Hf Hd]. inversion Hd as [|d' l' Hd' _]; subst.
+  rewrite dec_value_snoc. destruct ds as [|d0 ds'].
+  - cbn [app]. change (dec_value []) with 0. rewrite N.mul_0_r, N.add_0_l. apply DD_digit. exact Hd'.
+  - apply DD_more; [apply IH; [discriminate|exact Hf]|exact Hd'].
+Qed.
+Lemma is_nil_false {A} (l : list A) : l <> [] -> is_nil l = false.
+Proof. destruct l; [contradiction|reflexivity]. Qed.
+
+Lemma sp_braced_complete q n om : Braced q n om -> forall r, sp_braced (q ++ r) = Some (n, om, r).
+Proof.
+  intros HB r. destruct HB as [ds n Hd|ds n Hd|ds n es m Hd He].
+  - apply DecimalDigits_spec in Hd. destruct Hd as [Hne [Hf <-]].
+    cbn [app sp_braced]. rewrite N.eqb_refl. rewrite <- app_assoc. rewrite (span_digits_app ds _ Hf) by reflexivity.
+    rewrite (is_nil_false ds Hne). cbn [app]. rewrite N.eqb_refl. reflexivity.
+  - apply DecimalDigits_spec in Hd. destruct Hd as [Hne [Hf <-]].
+    cbn [app sp_braced]. rewrite N.eqb_refl. rewrite <- app_assoc. rewrite (span_digits_app ds _ Hf) by reflexivity.
+    rewrite (is_nil_false ds Hne). cbn [app]. cbn [N.eqb Pos.eqb g_comma g_rbrace].
+    change (span_digits (125 :: r)) with (@nil N, 125 :: r). cbn [N.eqb Pos.eqb is_nil]. reflexivity.
+  - apply DecimalDigits_spec in Hd. destruct Hd as [Hne [Hf <-]].
+    apply DecimalDigits_spec in He. destruct He as [Hne' [Hf' <-]].
+    cbn [app sp_braced]. rewrite N.eqb_refl. rewrite <- app_assoc. rewrite (span_digits_app ds _ Hf) by reflexivity.
+    rewrite (is_nil_false ds Hne). cbn [app]. cbn [N.eqb Pos.eqb g_comma g_rbrace].
+    rewrite <- app_assoc. rewrite (span_digits_app es _ Hf') by reflexivity. cbn [app].
+    cbn [N.eqb Pos.eqb]. rewrite (is_nil_false es Hne'). reflexivity.
+Qed.
+Lemma sp_braced_sound l n om r : sp_braced l = Some (n, om, r) -> exists q, Braced q n om /\ l = q ++ r.
+Proof.
+  destruct l as [|c l']; cbn [sp_braced]; [discriminate|].
+  destruct (N.eqb_spec c g_lbrace) as [->|_]; [|discriminate].
+  destruct (span_digits_spec l') as [E1 [F1 _]]. destruct (span_digits l') as [ds r1]. cbn [fst snd] in *.
+  destruct ds as [|d0 ds0] eqn:Eds; cbn [is_nil]; [discriminate|]. rewrite <- Eds in *.
+  assert (Hd : DecimalDigits ds (dec_value ds)) by (apply DecimalDigits_intro; [subst ds; discriminate|exact F1]).
+  destruct r1 as [|c1 r2]; [discriminate|].
+  destruct (N.eqb_spec c1 g_rbrace) as [->|_].
+  { intros [= <- <- <-]. exists (g_lbrace :: ds ++ [g_rbrace]). split; [apply Br_exact; exact Hd|].
+    cbn [app]. rewrite <- app_assoc. rewrite E1. reflexivity. }
+  destruct (N.eqb_spec c1 g_comma) as [->|_]; [|discriminate].
+  destruct (span_digits_spec r2) as [E2 [F2 _]]. destruct (span_digits r2) as [es r3]. cbn [fst snd] in *.
+  destruct r3 as [|c3 r4]; [discriminate|].
+  destruct (N.eqb_spec c3 g_rbrace) as [->|_]; [|discriminate].
+  destruct es as [|e0 es0] eqn:Ees; cbn [is_nil].
+  - intros [= <- <- <-]. exists (g_lbrace :: ds ++ [g_comma; g_rbrace]). split; [apply Br_at_least; exact Hd|].
+    cbn [app]. rewrite <- app_assoc. rewrite E1, E2. reflexivity.
+  - rewrite <- Ees in *. intros [= <- <- <-].
+    assert (He : DecimalDigits es (dec_value es)) by (apply DecimalDigits_intro; [subst es; discriminate|exact F2]).
+    exists (g_lbrace :: ds ++ g_comma :: es ++ [g_rbrace]). split; [apply Br_range; assumption|].
+    cbn [app]. rewrite <- app_assoc. cbn [app]. rewrite <- app_assoc. rewrite E1, E2. reflexivity.
+Qed.
+Lemma Braced_head q n om : Braced q n om -> exists q', q = g_lbrace :: q'.
+Proof. intros [ds ? _|ds ? _|ds ? es ? _ _]; eexists; reflexivity. Qed.
+Lemma not_ibq_head c r : c <> g_lbrace -> forall q r', InvalidBracedQuantifier q -> c :: r <> q ++ r'.
+Proof. intros Hc q r' [n [om HB]] E. apply Braced_head in HB. destruct HB as [q' ->]. cbn [app] in E. congruence. Qed.
+Lemma not_ibq_none l : sp_braced l = None -> forall q r', InvalidBracedQuantifier q -> l <> q ++ r'.
+Proof. intros Hn q r' [n [om HB]] ->. rewrite (sp_braced_complete q n om HB r') in Hn. discriminate. Qed.
+
+(* no quantifier starts here (as consume_quantifier(false) sees it) *)
+Definition noq (u : bool) (r : list N) : Prop := sp_quant u false r = SOk false r.
 Definition stop (r : list N) : Prop := r = [] \/ exists r', r = g_rparen :: r'.
 
-Lemma sp_quant_noq r : noq r -> sp_quant r = (false, r).
-Proof. destruct r as [|c r]; cbn [sp_quant noq]; [reflexivity|]. intros ->. reflexivity. Qed.
-Lemma stop_noq r : stop r -> noq r.
-Proof. intros [->|[r' ->]]; cbn; [exact I|reflexivity]. Qed.
+Lemma stop_noq u r : stop r -> noq u r.
+Proof. intros [->|[r' ->]]; reflexivity. Qed.
+Lemma noq_head u c r : noq u (c :: r) -> is_quant_char c = false.
+Proof. unfold noq. cbn [sp_quant]. destruct (is_quant_char c); [discriminate|reflexivity]. Qed.
+Lemma noq_skip_lazy u r : noq u r -> skip_lazy r = r.
+Proof.
+  destruct r as [|c r]; [reflexivity|]. intros H. apply noq_head in H. cbn [skip_lazy].
+  unfold is_quant_char in H. apply orb_false_iff in H. destruct H as [_ H]. rewrite H. reflexivity.
+Qed.
+Lemma noq_cons_nonspecial u c r : is_quant_char c = false -> (c =? g_lbrace) = false -> noq u (c :: r).
+Proof. intros H1 H2. unfold noq. cbn [sp_quant]. rewrite H1, H2. reflexivity. Qed.
 
 (* ================= soundness ================= *)
-Lemma sp_quant_sound l r : sp_quant l = (true, r) -> exists q, l = q ++ r /\ Quantifier q.
+Lemma skip_lazy_cases r : skip_lazy r = r \/ r = g_question :: skip_lazy r.
+Proof. destruct r as [|q r']; [left; reflexivity|]. cbn [skip_lazy]. destruct (N.eqb_spec q g_question) as [->|_]; [right|left]; reflexivity. Qed.
+Lemma Quantifier_of_prefix p r : QuantifierPrefix p -> exists q, p ++ r = q ++ skip_lazy r /\ Quantifier q.
+Proof.
+  intros Hp. destruct (skip_lazy_cases r) as [E|E].
+  - exists p. rewrite E. split; [reflexivity|apply Q_greedy; exact Hp].
+  - exists (p ++ [g_question]). split; [rewrite <- app_assoc; cbn [app]; rewrite <- E; reflexivity|apply Q_lazy; exact Hp].
+Qed.
+Lemma sp_quant_sound u l r : sp_quant u false l = SOk true r -> exists q, l = q ++ r /\ Quantifier q.
 Proof.
   destruct l as [|c l']; cbn [sp_quant]; [discriminate|].
-  destruct (is_quant_char c) eqn:Eq; [|discriminate]. intros [= <-].
-  assert (Hp : QuantifierPrefix [c]).
-  { unfold is_quant_char in Eq. apply orb_true_iff in Eq. destruct Eq as [Eq|Eq]; [apply orb_true_iff in Eq; destruct Eq as [Eq|Eq]|];
-      apply N.eqb_eq in Eq; subst c; constructor. }
-  destruct l' as [|q r']; [exists [c]; split; [reflexivity|apply Q_greedy; exact Hp]|].
-  destruct (N.eqb_spec q g_question) as [->|_].
-  - exists ([c] ++ [g_question]). split; [reflexivity|apply Q_lazy; exact Hp].
-  - exists [c]. split; [reflexivity|apply Q_greedy; exact Hp].
+  destruct (is_quant_char c) eqn:Eq.
+  - intros [= <-].
+    assert (Hp : QuantifierPrefix [c]).
+    { unfold is_quant_char in Eq. apply orb_true_iff in Eq. destruct Eq as [Eq|Eq]; [apply orb_true_iff in Eq; destruct Eq as [Eq|Eq]|];
+        apply N.eqb_eq in Eq; subst c; constructor. }
+    exact (Quantifier_of_prefix [c] l' Hp).
+  - destruct (c =? g_lbrace); [|discriminate].
+    destruct (sp_braced (c :: l')) as [[[n om] r']|] eqn:Eb.
+    + cbn [negb andb]. destruct (bounds_ok n om) eqn:Ebo; cbn [negb]; [|discriminate]. intros [= <-].
+      apply sp_braced_sound in Eb. destruct Eb as [q [HB ->]].
+      apply Quantifier_of_prefix. apply (QP_braced q n om HB).
+      intros m ->. cbn [bounds_ok] in Ebo. apply N.leb_le in Ebo. exact Ebo.
+    + destruct (negb false && u)%bool; discriminate.
 Qed.
-Lemma sp_quant_false l r : sp_quant l = (false, r) -> r = l.
-Proof. destruct l as [|c l']; cbn [sp_quant]; [intros [= <-]; reflexivity|]. destruct (is_quant_char c); [discriminate|intros [= <-]; reflexivity]. Qed.
-
-Lemma Alternative_cons u t a : Term u t -> Alternative u a -> Alternative u (t ++ a).
+Lemma sp_quant_false u ne l r : sp_quant u ne l = SOk false r -> r = l.
 Proof.
-  intros Ht Ha. induction Ha as [|a t' Ha IH Ht'].
+  destruct l as [|c l']; cbn [sp_quant]; [intros [= <-]; reflexivity|].
+  destruct (is_quant_char c); [discriminate|]. destruct (c =? g_lbrace); [|intros [= <-]; reflexivity].
+  destruct (sp_braced (c :: l')) as [[[n om] r']|].
+  - destruct (negb ne && negb (bounds_ok n om))%bool; discriminate.
+  - destruct (negb ne && u)%bool; [discriminate|intros [= <-]; reflexivity].
+Qed.
+
+Lemma Alternative_cons u t a r : Term u t (a ++ r) -> Alternative u a r -> Alternative u (t ++ a) r.
+Proof.
+  intros Ht Ha. revert t Ht. induction Ha as [r|a t' r Ha IH Ht']; intros t Ht.
   - rewrite app_nil_r. change t with ([] ++ t). apply A_term; [apply A_empty|exact Ht].
-  - rewrite app_assoc. apply A_term; [exact IH|exact Ht'].
+  - rewrite app_assoc. apply A_term; [|exact Ht']. apply IH. rewrite <- app_assoc in Ht. exact Ht.
 Qed.
 
 Section Sound.
 Variable u : bool.
 Variable sdisj : list N -> SR unit.
-Hypothesis sdisj_sound : forall l r, sdisj l = SOk tt r -> exists d, l = d ++ r /\ Disjunction u d.
+Hypothesis sdisj_sound : forall l r, sdisj l = SOk tt r -> exists d, l = d ++ r /\ Disjunction u d r.
 
 Lemma sp_group_body_sound l b r : sp_group_body sdisj l = SOk b r ->
-  b = true /\ exists d, l = d ++ g_rparen :: r /\ Disjunction u d.
+  b = true /\ exists d, l = d ++ g_rparen :: r /\ Disjunction u d (g_rparen :: r).
 Proof.
   unfold sp_group_body. destruct (sdisj l) as [[] [|c r0]| |] eqn:E; try discriminate.
   destruct (N.eqb_spec c g_rparen) as [->|_]; [|discriminate]. intros [= <- <-].
@@ -80,8 +193,8 @@ Qed.
 Lemma is_eq_or_bang_cases y : is_eq_or_bang y = true -> y = g_equals \/ y = g_bang.
 Proof. unfold is_eq_or_bang. intros H. apply orb_true_iff in H. destruct H as [H|H]; apply N.eqb_eq in H; auto. Qed.
 Lemma sp_assertion_sound l b r : sp_assertion sdisj l = SOk b r ->
-  (b = true /\ exists w, l = w ++ r /\ Assertion u w /\
-     (quantifiable u l = true -> u = false /\ QuantifiableAssertion u w)) \/ (b = false /\ r = l).
+  (b = true /\ exists w, l = w ++ r /\ Assertion u w r /\
+     (quantifiable u l = true -> u = false /\ QuantifiableAssertion u w r)) \/ (b = false /\ r = l).
 Proof.
   destruct l as [|c l']; cbn [sp_assertion]; [intros [= <- <-]; right; split; reflexivity|].
   destruct (N.eqb_spec c g_caret) as [->|_].
@@ -114,10 +227,10 @@ Proof.
     intros H. apply sp_group_body_sound in H. destruct H as [-> [d [-> Hd]]]. left. split; [reflexivity|].
     apply is_eq_or_bang_cases in Ex. destruct Ex as [->| ->].
     + exists (g_lparen :: g_question :: g_equals :: d ++ [g_rparen]). split; [cbn [app]; rewrite <- app_assoc; reflexivity|].
-      assert (HQ : QuantifiableAssertion u (g_lparen :: g_question :: g_equals :: d ++ [g_rparen])) by (apply QA_lookahead; exact Hd).
+      assert (HQ : QuantifiableAssertion u (g_lparen :: g_question :: g_equals :: d ++ [g_rparen]) r) by (apply QA_lookahead; exact Hd).
       split; [apply As_lookahead; exact HQ|]. cbn. intros Hu. split; [destruct u; [discriminate|reflexivity]|exact HQ].
     + exists (g_lparen :: g_question :: g_bang :: d ++ [g_rparen]). split; [cbn [app]; rewrite <- app_assoc; reflexivity|].
-      assert (HQ : QuantifiableAssertion u (g_lparen :: g_question :: g_bang :: d ++ [g_rparen])) by (apply QA_neg_lookahead; exact Hd).
+      assert (HQ : QuantifiableAssertion u (g_lparen :: g_question :: g_bang :: d ++ [g_rparen]) r) by (apply QA_neg_lookahead; exact Hd).
       split; [apply As_lookahead; exact HQ|]. cbn. intros Hu. split; [destruct u; [discriminate|reflexivity]|exact HQ].
 Qed.
 Lemma escape_ok_AtomEscape x : escape_ok u x = true -> AtomEscape u [x].
@@ -128,13 +241,13 @@ Proof.
   - apply AE_identity; exact H.
 Qed.
 Lemma sp_atom_sound l b r : sp_assertion sdisj l = SOk false l -> sp_atom u sdisj l = SOk b r ->
-  (b = true /\ exists w, l = w ++ r /\ Atom u w) \/ (b = false /\ r = l).
+  (b = true /\ exists w, l = w ++ r /\ Atom u w r) \/ (b = false /\ r = l).
 Proof.
   intros Hna.
   destruct l as [|c l']; cbn [sp_atom]; [intros [= <- <-]; right; split; reflexivity|].
   destruct (syntax_character c) eqn:Es; cbn [negb].
   2:{ intros [= <- <-]. left. split; [reflexivity|]. exists [c]. split; [reflexivity|].
-      apply At_char. apply nonsyntax_pattern_char. exact Es. }
+      apply At_char; [apply nonsyntax_pattern_char; exact Es|]. intros _. apply not_ibq_head. intros ->. discriminate Es. }
   destruct (N.eqb_spec c g_dot) as [->|_].
   { intros [= <- <-]. left. split; [reflexivity|]. exists [g_dot]. split; [reflexivity|apply At_dot]. }
   destruct (N.eqb_spec c g_backslash) as [->|_].
@@ -142,45 +255,58 @@ Proof.
     intros [= <- <-]. left. split; [reflexivity|]. exists [g_backslash; x]. split; [reflexivity|].
     apply At_escape; [apply escape_ok_AtomEscape; exact Ex|].
     cbn [sp_assertion] in Hna. cbn [N.eqb Pos.eqb] in Hna. destruct (assertion_escape x); [discriminate|reflexivity]. }
-  destruct (N.eqb_spec c g_lparen) as [->|_]; [|intros [= <- <-]; right; split; reflexivity].
-  assert (Hcap : forall l0, sp_group_body sdisj l0 = SOk b r ->
-            b = true /\ exists w, g_lparen :: l0 = w ++ r /\ Atom u w).
-  { intros l0 H. apply sp_group_body_sound in H. destruct H as [-> [d [-> Hd]]]. split; [reflexivity|].
-    exists (g_lparen :: d ++ [g_rparen]). split; [cbn [app]; rewrite <- app_assoc; reflexivity|apply At_group; exact Hd]. }
-  destruct l' as [|q r']; [intros H; left; apply Hcap; exact H|].
-  destruct (N.eqb_spec q g_question) as [->|_]; [|intros H; left; apply Hcap; exact H].
-  destruct r' as [|k r'']; [discriminate|].
-  destruct (N.eqb_spec k g_colon) as [->|_]; [|discriminate].
-  intros H. apply sp_group_body_sound in H. destruct H as [-> [d [-> Hd]]]. left. split; [reflexivity|].
-  exists (g_lparen :: g_question :: g_colon :: d ++ [g_rparen]). split; [cbn [app]; rewrite <- app_assoc; reflexivity|].
-  apply At_noncapturing; exact Hd.
+  destruct (N.eqb_spec c g_lparen) as [->|_].
+  { assert (Hcap : forall l0, sp_group_body sdisj l0 = SOk b r ->
+              b = true /\ exists w, g_lparen :: l0 = w ++ r /\ Atom u w r).
+    { intros l0 H. apply sp_group_body_sound in H. destruct H as [-> [d [-> Hd]]]. split; [reflexivity|].
+      exists (g_lparen :: d ++ [g_rparen]). split; [cbn [app]; rewrite <- app_assoc; reflexivity|apply At_group; exact Hd]. }
+    destruct l' as [|q r']; [intros H; left; apply Hcap; exact H|].
+    destruct (N.eqb_spec q g_question) as [->|_]; [|intros H; left; apply Hcap; exact H].
+    destruct r' as [|k r'']; [discriminate|].
+    destruct (N.eqb_spec k g_colon) as [->|_]; [|discriminate].
+    intros H. apply sp_group_body_sound in H. destruct H as [-> [d [-> Hd]]]. left. split; [reflexivity|].
+    exists (g_lparen :: g_question :: g_colon :: d ++ [g_rparen]). split; [cbn [app]; rewrite <- app_assoc; reflexivity|].
+    apply At_noncapturing; exact Hd. }
+  destruct u eqn:Eu; [intros [= <- <-]; right; split; reflexivity|].
+  destruct (N.eqb_spec c g_lbrace) as [->|Hlb].
+  { destruct (sp_braced (g_lbrace :: l')) eqn:Eb; [discriminate|]. intros [= <- <-]. left. split; [reflexivity|].
+    exists [g_lbrace]. split; [reflexivity|]. apply At_char; [reflexivity|]. intros _. apply not_ibq_none. exact Eb. }
+  destruct ((c =? g_rbrace) || (c =? g_rbracket))%bool eqn:Ec; [|intros [= <- <-]; right; split; reflexivity].
+  intros [= <- <-]. left. split; [reflexivity|]. exists [c]. split; [reflexivity|].
+  apply At_char; [|intros _; apply not_ibq_head; exact Hlb].
+  apply orb_true_iff in Ec. destruct Ec as [Ec|Ec]; apply N.eqb_eq in Ec; subst c; reflexivity.
+Qed.
+Lemma sp_quantified_sound r0 b r : sp_quantified u r0 = SOk b r ->
+  b = true /\ (r = r0 \/ exists q, r0 = q ++ r /\ Quantifier q).
+Proof.
+  unfold sp_quantified. destruct (sp_quant u false r0) as [[|] r1| |] eqn:E; try discriminate; intros [= <- <-]; (split; [reflexivity|]).
+  - right. apply sp_quant_sound in E. exact E.
+  - left. apply sp_quant_false in E. exact E.
 Qed.
 Lemma sp_term_sound l b r : sp_term u sdisj l = SOk b r ->
-  (b = true /\ exists t, l = t ++ r /\ Term u t) \/ (b = false /\ r = l).
+  (b = true /\ exists t, l = t ++ r /\ Term u t r) \/ (b = false /\ r = l).
 Proof.
   unfold sp_term. destruct (sp_assertion sdisj l) as [[|] r0| |] eqn:Ea; try discriminate.
   - apply sp_assertion_sound in Ea. destruct Ea as [[_ [w [-> [Hw Hq]]]]|[Ea _]]; [|discriminate].
     destruct (quantifiable u (w ++ r0)) eqn:Eq.
-    + intros [= <- <-]. left. split; [reflexivity|]. destruct (Hq eq_refl) as [Hu HQ].
-      destruct (sp_quant r0) as [[|] r1] eqn:Eq'; cbn [snd].
-      * apply sp_quant_sound in Eq'. destruct Eq' as [q [-> Hq']]. exists (w ++ q). split; [rewrite app_assoc; reflexivity|].
-        apply T_qassertion_quant; assumption.
-      * apply sp_quant_false in Eq'. subst r1. exists w. split; [reflexivity|apply T_assertion; exact Hw].
+    + intros H. apply sp_quantified_sound in H. destruct H as [-> H]. left. split; [reflexivity|]. destruct (Hq eq_refl) as [Hu HQ].
+      destruct H as [->|[q [-> Hq']]].
+      * exists w. split; [reflexivity|apply T_assertion; exact Hw].
+      * exists (w ++ q). split; [rewrite app_assoc; reflexivity|]. apply T_qassertion_quant; assumption.
     + intros [= <- <-]. left. split; [reflexivity|]. exists w. split; [reflexivity|apply T_assertion; exact Hw].
   - assert (Hna : sp_assertion sdisj l = SOk false l).
     { rewrite Ea. f_equal. apply sp_assertion_sound in Ea. destruct Ea as [[Ea _]|[_ Ea]]; [discriminate|exact Ea]. }
     destruct (sp_atom u sdisj l) as [[|] r1| |] eqn:E; try discriminate.
-    + intros [= <- <-]. left. split; [reflexivity|].
+    + intros H. apply sp_quantified_sound in H. destruct H as [-> H]. left. split; [reflexivity|].
       apply (sp_atom_sound _ _ _ Hna) in E. destruct E as [[_ [w [-> Hw]]]|[E _]]; [|discriminate].
-      destruct (sp_quant r1) as [[|] r2] eqn:Eq; cbn [snd].
-      * apply sp_quant_sound in Eq. destruct Eq as [q [-> Hq]]. exists (w ++ q). split; [rewrite app_assoc; reflexivity|].
-        apply T_atom_quant; assumption.
-      * apply sp_quant_false in Eq. subst r2. exists w. split; [reflexivity|apply T_atom; exact Hw].
+      destruct H as [->|[q [-> Hq]]].
+      * exists w. split; [reflexivity|apply T_atom; exact Hw].
+      * exists (w ++ q). split; [rewrite app_assoc; reflexivity|]. apply T_atom_quant; assumption.
     + intros [= <- <-]. right. split; [reflexivity|].
       apply (sp_atom_sound _ _ _ Hna) in E. destruct E as [[E _]|[_ E]]; [discriminate|exact E].
 Qed.
 Lemma sp_alternative_sound g : forall l r, sp_alternative u sdisj g l = SOk tt r ->
-  exists a, l = a ++ r /\ Alternative u a.
+  exists a, l = a ++ r /\ Alternative u a r.
 Proof.
   induction g as [|g IH]; intros l r; cbn [sp_alternative]; [discriminate|].
   destruct l as [|c l']; [intros [= <-]; exists []; split; [reflexivity|apply A_empty]|].
@@ -192,7 +318,7 @@ Proof.
     exists []. split; [reflexivity|apply A_empty].
 Qed.
 Lemma sp_bars_sound g : forall l r, sp_bars u sdisj g l = SOk tt r ->
-  forall a, Alternative u a -> exists d, a ++ l = d ++ r /\ Disjunction u d.
+  forall a, Alternative u a l -> exists d, a ++ l = d ++ r /\ Disjunction u d r.
 Proof.
   induction g as [|g IH]; intros l r; cbn [sp_bars]; [discriminate|].
   destruct l as [|c l'].
@@ -203,21 +329,22 @@ Proof.
   intros H a Ha. apply sp_alternative_sound in E. destruct E as [a' [-> Ha']].
   destruct (IH _ _ H a' Ha') as [d [Hd1 Hd2]]. exists (a ++ g_bar :: d). split.
   - rewrite Hd1. rewrite <- app_assoc. reflexivity.
-  - apply D_bar; assumption.
+  - apply D_bar; [rewrite <- Hd1; exact Ha|exact Hd2].
 Qed.
 Lemma sp_disjunction_body_sound l r : sp_disjunction_body u sdisj l = SOk tt r ->
-  exists d, l = d ++ r /\ Disjunction u d.
+  exists d, l = d ++ r /\ Disjunction u d r.
 Proof.
   unfold sp_disjunction_body.
   destruct (sp_alternative u sdisj (S (length l)) l) as [[] l1| |] eqn:E1; try discriminate.
   destruct (sp_bars u sdisj (S (length l1)) l1) as [[] l2| |] eqn:E2; try discriminate.
-  destruct (fst (sp_quant l2)); [discriminate|]. intros [= <-].
+  destruct (sp_quant u true l2) as [[|] r2| |]; try discriminate.
+  destruct (starts_with g_lbrace l2); [discriminate|]. intros [= <-].
   apply sp_alternative_sound in E1. destruct E1 as [a [-> Ha]].
   exact (sp_bars_sound _ _ _ E2 a Ha).
 Qed.
 End Sound.
 
-Lemma sp_disjunction_sound u f : forall l r, sp_disjunction u f l = SOk tt r -> exists d, l = d ++ r /\ Disjunction u d.
+Lemma sp_disjunction_sound u f : forall l r, sp_disjunction u f l = SOk tt r -> exists d, l = d ++ r /\ Disjunction u d r.
 Proof.
   induction f as [|f IH]; intros l r; cbn [sp_disjunction]; [discriminate|].
   apply sp_disjunction_body_sound. exact IH.
@@ -230,39 +357,57 @@ Proof.
 Qed.
 
 (* ================= completeness ================= *)
-(* first characters: no construct starts with a quantifier character; a Disjunction does not start with `?` *)
-Lemma grammar_heads u :
-  (forall d, Disjunction u d -> noq d) /\ (forall a, Alternative u a -> noq a) /\
-  (forall t, Term u t -> noq t /\ t <> []) /\ (forall w, Assertion u w -> noq w /\ w <> []) /\
-  (forall w, QuantifiableAssertion u w -> noq w /\ w <> []) /\ (forall w, Atom u w -> noq w /\ w <> []).
+Lemma sp_quant_complete u q r : Quantifier q -> noq u r -> sp_quant u false (q ++ r) = SOk true r.
 Proof.
-  apply grammar_mutind.
-  - intros a _ IH. exact IH.
-  - intros a d _ IHa _ _. destruct a as [|c a']; [cbn; reflexivity|exact IHa].
-  - exact I.
-  - intros a t _ IHa _ [IHt Hne]. destruct a as [|c a']; [exact IHt|exact IHa].
-  - intros a _ IH. exact IH.
-  - intros a q _ _ [IHa Hne] _. destruct a as [|c a']; [contradiction|]. split; [exact IHa|discriminate].
-  - intros a _ IH. exact IH.
-  - intros a q _ [IHa Hne] _. destruct a as [|c a']; [contradiction|]. split; [exact IHa|discriminate].
-  - split; [cbn; reflexivity|discriminate].
-  - split; [cbn; reflexivity|discriminate].
-  - split; [cbn; reflexivity|discriminate].
-  - split; [cbn; reflexivity|discriminate].
-  - intros a _ IH. exact IH.
-  - intros d _ _. split; [cbn; reflexivity|discriminate].
-  - intros d _ _. split; [cbn; reflexivity|discriminate].
-  - intros d _ _. split; [cbn; reflexivity|discriminate].
-  - intros d _ _. split; [cbn; reflexivity|discriminate].
-  - intros c Hc. split; [cbn; apply (pattern_char_not_quant u); exact Hc|discriminate].
-  - split; [cbn; reflexivity|discriminate].
-  - intros c _ _. split; [cbn; reflexivity|discriminate].
-  - intros d _ _. split; [cbn; reflexivity|discriminate].
-  - intros d _ _. split; [cbn; reflexivity|discriminate].
+  intros HQ Hr.
+  assert (Hpre : forall p r0, QuantifierPrefix p -> sp_quant u false (p ++ r0) = SOk true (skip_lazy r0)).
+  { intros p r0 Hp. destruct Hp as [| | |p n om HB Hle]; try reflexivity.
+    pose proof (sp_braced_complete p n om HB r0) as Eb. destruct (Braced_head p n om HB) as [p' ->].
+    cbn [app sp_quant] in *. cbn [is_quant_char N.eqb Pos.eqb g_lbrace g_star g_plus g_question orb].
+    rewrite Eb. cbn [negb andb].
+    assert (Hb : bounds_ok n om = true).
+    { destruct om as [m|]; [|reflexivity]. cbn [bounds_ok]. apply N.leb_le. apply Hle. reflexivity. }
+    rewrite Hb. reflexivity. }
+  destruct HQ as [p Hp|p Hp].
+  - rewrite (Hpre p r Hp). rewrite (noq_skip_lazy u r Hr). reflexivity.
+  - rewrite <- app_assoc. rewrite (Hpre p _ Hp). cbn [app skip_lazy]. rewrite N.eqb_refl. reflexivity.
 Qed.
 
-Lemma noq_app a r : a <> [] -> noq a -> noq (a ++ r).
-Proof. destruct a as [|c a']; [contradiction|]. intros _ H. exact H. Qed.
+(* first units: nothing starts where a quantifier could be read *)
+Lemma grammar_heads u :
+  (forall d r, Disjunction u d r -> d = [] \/ noq u (d ++ r)) /\ (forall a r, Alternative u a r -> a = [] \/ noq u (a ++ r)) /\
+  (forall t r, Term u t r -> t <> [] /\ noq u (t ++ r)) /\ (forall w r, Assertion u w r -> w <> [] /\ noq u (w ++ r)) /\
+  (forall w r, QuantifiableAssertion u w r -> w <> [] /\ noq u (w ++ r)) /\ (forall w r, Atom u w r -> w <> [] /\ noq u (w ++ r)).
+Proof.
+  apply grammar_mutind.
+  - intros a r _ IH. exact IH.
+  - intros a d r _ IHa _ _. right. destruct IHa as [->|IHa]; [reflexivity|]. rewrite <- app_assoc. exact IHa.
+  - intros r. left. reflexivity.
+  - intros a t r _ IHa _ [Hne IHt]. right. destruct IHa as [->|IHa]; [exact IHt|]. rewrite <- app_assoc. exact IHa.
+  - intros a r _ IH. exact IH.
+  - intros a q r _ _ [Hne IHa] _. split; [destruct a; [contradiction|discriminate]|]. rewrite <- app_assoc. exact IHa.
+  - intros a r _ IH. exact IH.
+  - intros a q r _ [Hne IHa] _. split; [destruct a; [contradiction|discriminate]|]. rewrite <- app_assoc. exact IHa.
+  - intros r. split; [discriminate|reflexivity].
+  - intros r. split; [discriminate|reflexivity].
+  - intros r. split; [discriminate|reflexivity].
+  - intros r. split; [discriminate|reflexivity].
+  - intros a r _ IH. exact IH.
+  - intros d r _ _. split; [discriminate|reflexivity].
+  - intros d r _ _. split; [discriminate|reflexivity].
+  - intros d r _ _. split; [discriminate|reflexivity].
+  - intros d r _ _. split; [discriminate|reflexivity].
+  - intros c r Hc Hib. split; [discriminate|]. cbn [app]. unfold noq. cbn [sp_quant].
+    rewrite (pattern_char_not_quant u c Hc). destruct (N.eqb_spec c g_lbrace) as [->|_]; [|reflexivity].
+    destruct u; [discriminate Hc|].
+    destruct (sp_braced (g_lbrace :: r)) as [[[n om] r']|] eqn:Eb; [|reflexivity].
+    exfalso. apply sp_braced_sound in Eb. destruct Eb as [q [HB E]].
+    exact (Hib eq_refl q r' (ex_intro _ n (ex_intro _ om HB)) E).
+  - intros r. split; [discriminate|reflexivity].
+  - intros c r _ _. split; [discriminate|reflexivity].
+  - intros d r _ _. split; [discriminate|reflexivity].
+  - intros d r _ _. split; [discriminate|reflexivity].
+Qed.
 
 (* more fuel does not change a result *)
 Lemma sp_alternative_mono u sdisj g : forall l res, sp_alternative u sdisj g l = res -> res <> SFuel ->
@@ -275,191 +420,170 @@ Proof.
   apply (IH _ _ H Hne). lia.
 Qed.
 
-Lemma chars_ok_app u a b : chars_ok u (a ++ b) = true -> chars_ok u a = true /\ chars_ok u b = true.
-Proof. unfold chars_ok. destruct u; [split; reflexivity|]. cbn [orb]. rewrite forallb_app. apply andb_true_iff. Qed.
-Lemma chars_ok_cons u c l : chars_ok u (c :: l) = true -> cok u c /\ chars_ok u l = true.
-Proof.
-  unfold chars_ok, cok. destruct u; [split; [left|]; reflexivity|]. cbn [orb forallb]. intros H.
-  apply andb_true_iff in H. destruct H as [H1 H2]. split; [right; exact H1|exact H2].
-Qed.
-Tactic Notation "chars_tail" hyp(H) integer(n) := do n (apply chars_ok_cons in H; destruct H as [_ H]); apply chars_ok_app in H; destruct H as [H _].
-
 Section Complete.
 Variable u : bool.
 
-Definition P_D (d : list N) : Prop := chars_ok u d = true ->
-  forall r f, stop r -> (length (d ++ r) <= f)%nat ->
+Definition P_D (d r : list N) : Prop :=
+  forall f, stop r -> (length (d ++ r) <= f)%nat ->
   exists l1, sp_alternative u (sp_disjunction u f) (S (length (d ++ r))) (d ++ r) = SOk tt l1 /\
              (length l1 <= length (d ++ r))%nat /\
              forall g, (length l1 < g)%nat -> sp_bars u (sp_disjunction u f) g l1 = SOk tt r.
-Definition P_A (a : list N) : Prop := chars_ok u a = true ->
-  forall r f g res, noq r -> (length (a ++ r) <= f)%nat ->
+Definition P_A (a r : list N) : Prop :=
+  forall f g res, noq u r -> (length (a ++ r) <= f)%nat ->
   sp_alternative u (sp_disjunction u f) g r = res -> res <> SFuel ->
   sp_alternative u (sp_disjunction u f) (g + length a) (a ++ r) = res.
-Definition P_T (t : list N) : Prop := chars_ok u t = true ->
-  forall r f, noq r -> (length (t ++ r) <= f)%nat -> sp_term u (sp_disjunction u f) (t ++ r) = SOk true r.
-Definition P_As (w : list N) : Prop := chars_ok u w = true ->
-  forall r f, (length (w ++ r) <= f)%nat -> sp_assertion (sp_disjunction u f) (w ++ r) = SOk true r.
+Definition P_T (t r : list N) : Prop :=
+  forall f, noq u r -> (length (t ++ r) <= f)%nat -> sp_term u (sp_disjunction u f) (t ++ r) = SOk true r.
+Definition P_As (w r : list N) : Prop :=
+  forall f, (length (w ++ r) <= f)%nat -> sp_assertion (sp_disjunction u f) (w ++ r) = SOk true r.
 (* a look-ahead: recognised as an assertion, and quantifiable exactly without u *)
-Definition P_QA (w : list N) : Prop := chars_ok u w = true ->
-  forall r f, (length (w ++ r) <= f)%nat ->
+Definition P_QA (w r : list N) : Prop :=
+  forall f, (length (w ++ r) <= f)%nat ->
   sp_assertion (sp_disjunction u f) (w ++ r) = SOk true r /\ quantifiable u (w ++ r) = negb u.
 (* an atom: not an assertion, recognised as an atom *)
-Definition P_At (w : list N) : Prop := chars_ok u w = true ->
-  forall r f, (length (w ++ r) <= f)%nat ->
+Definition P_At (w r : list N) : Prop :=
+  forall f, (length (w ++ r) <= f)%nat ->
   sp_atom u (sp_disjunction u f) (w ++ r) = SOk true r /\ sp_assertion (sp_disjunction u f) (w ++ r) = SOk false (w ++ r).
 
-Lemma P_D_disjunction d : P_D d -> chars_ok u d = true -> forall r f, stop r -> (length (d ++ r) < f)%nat ->
+Lemma stop_after_bars r : stop r -> sp_quant u true r = SOk false r /\ starts_with g_lbrace r = false.
+Proof. intros [->|[r' ->]]; split; reflexivity. Qed.
+Lemma P_D_disjunction d r : P_D d r -> forall f, stop r -> (length (d ++ r) < f)%nat ->
   sp_disjunction u f (d ++ r) = SOk tt r.
 Proof.
-  intros HP Hf r f Hs Hlen. destruct f as [|f]; [lia|]. cbn [sp_disjunction]. unfold sp_disjunction_body.
-  destruct (HP Hf r f Hs ltac:(lia)) as [l1 [E1 [Hl1 Hb]]]. rewrite E1.
-  rewrite (Hb (S (length l1)) ltac:(lia)). rewrite (sp_quant_noq r (stop_noq r Hs)). reflexivity.
+  intros HP f Hs Hlen. destruct f as [|f]; [lia|]. cbn [sp_disjunction]. unfold sp_disjunction_body.
+  destruct (HP f Hs ltac:(lia)) as [l1 [E1 [Hl1 Hb]]]. rewrite E1.
+  rewrite (Hb (S (length l1)) ltac:(lia)). destruct (stop_after_bars r Hs) as [-> ->]. reflexivity.
 Qed.
 (* `(x` D `)` rest, entered after the prefix: the body of any group or look-around *)
-Lemma P_D_group_body d : P_D d -> chars_ok u d = true -> forall r f, (S (length (d ++ g_rparen :: r)) <= f)%nat ->
+Lemma P_D_group_body d r : P_D d (g_rparen :: r) -> forall f, (S (length (d ++ g_rparen :: r)) <= f)%nat ->
   sp_group_body (sp_disjunction u f) (d ++ g_rparen :: r) = SOk true r.
 Proof.
-  intros HP Hf r f Hlen. unfold sp_group_body. rewrite (P_D_disjunction d HP Hf (g_rparen :: r) f).
+  intros HP f Hlen. unfold sp_group_body. rewrite (P_D_disjunction d (g_rparen :: r) HP f).
   - rewrite N.eqb_refl. reflexivity.
   - right. exists r. reflexivity.
   - lia.
 Qed.
 
-Lemma alt_stops_at f r : (exists c r', r = c :: r' /\ syntax_character c = true /\ c <> g_dot /\ c <> g_lparen /\
-                                       c <> g_caret /\ c <> g_dollar /\ c <> g_backslash) \/ r = [] ->
+Lemma alt_stops_at f r : r = [] \/ (exists r', r = g_rparen :: r') \/ (exists r', r = g_bar :: r') ->
   sp_alternative u (sp_disjunction u f) 1 r = SOk tt r.
-Proof.
-  intros [[c [r' [-> [Hs [Hd [Hl [Hc [Hdo Hb]]]]]]]]| ->]; [|reflexivity].
-  cbn [sp_alternative]. unfold sp_term. cbn [sp_assertion sp_atom]. rewrite Hs. cbn [negb].
-  destruct (N.eqb_spec c g_caret); [contradiction|]. destruct (N.eqb_spec c g_dollar); [contradiction|].
-  destruct (N.eqb_spec c g_backslash); [contradiction|].
-  destruct (N.eqb_spec c g_dot); [contradiction|]. destruct (N.eqb_spec c g_lparen); [contradiction|]. reflexivity.
-Qed.
+Proof. intros [->|[[r' ->]|[r' ->]]]; [reflexivity| |]; cbn; destruct u; reflexivity. Qed.
 
 Lemma app_comm_cons' (a b : list N) c : (a ++ [c]) ++ b = a ++ c :: b.
 Proof. rewrite <- app_assoc. reflexivity. Qed.
+Lemma noq_not_question r q l : noq u r -> r = q :: l -> (q =? g_question) = false.
+Proof. intros H ->. apply noq_head in H. unfold is_quant_char in H. apply orb_false_iff in H. apply H. Qed.
 
 Lemma completeness_mut :
-  (forall d, Disjunction u d -> P_D d) /\ (forall a, Alternative u a -> P_A a) /\
-  (forall t, Term u t -> P_T t) /\ (forall w, Assertion u w -> P_As w) /\
-  (forall w, QuantifiableAssertion u w -> P_QA w) /\ (forall w, Atom u w -> P_At w).
+  (forall d r, Disjunction u d r -> P_D d r) /\ (forall a r, Alternative u a r -> P_A a r) /\
+  (forall t r, Term u t r -> P_T t r) /\ (forall w r, Assertion u w r -> P_As w r) /\
+  (forall w r, QuantifiableAssertion u w r -> P_QA w r) /\ (forall w r, Atom u w r -> P_At w r).
 Proof.
   apply grammar_mutind.
-  - (* D_alt *) intros a Ha IHa Hf r f Hs Hlen. exists r. split; [|split].
-    + pose proof (IHa Hf r f 1%nat (SOk tt r) (stop_noq r Hs) Hlen) as H.
+  - (* D_alt *) intros a r Ha IHa f Hs Hlen. exists r. split; [|split].
+    + pose proof (IHa f 1%nat (SOk tt r) (stop_noq u r Hs) Hlen) as H.
       assert (E : sp_alternative u (sp_disjunction u f) 1 r = SOk tt r).
-      { apply alt_stops_at. destruct Hs as [->|[r' ->]]; [right; reflexivity|left].
-        exists g_rparen, r'. repeat split; try reflexivity; discriminate. }
+      { apply alt_stops_at. destruct Hs as [->|Hs]; [left; reflexivity|right; left; exact Hs]. }
       specialize (H E ltac:(discriminate)).
       apply (sp_alternative_mono _ _ _ _ _ H); [discriminate|]. rewrite app_length. lia.
     + rewrite app_length. lia.
     + intros g Hg. destruct g as [|g]; [lia|]. cbn [sp_bars].
       destruct Hs as [->|[r' ->]]; [reflexivity|]. reflexivity.
-  - (* D_bar *) intros a d Ha IHa Hd IHd Hf r f Hs Hlen.
-    apply chars_ok_app in Hf. destruct Hf as [Hfa Hfd].
-    assert (Hfd' : chars_ok u d = true) by (apply chars_ok_cons in Hfd; apply Hfd).
+  - (* D_bar *) intros a d r Ha IHa Hd IHd f Hs Hlen.
     rewrite <- app_assoc in *. cbn [app] in *.
     exists (g_bar :: d ++ r). split; [|split].
     + assert (E : sp_alternative u (sp_disjunction u f) 1 (g_bar :: d ++ r) = SOk tt (g_bar :: d ++ r)).
-      { apply alt_stops_at. left. exists g_bar, (d ++ r). repeat split; try reflexivity; discriminate. }
-      pose proof (IHa Hfa (g_bar :: d ++ r) f 1%nat _ ltac:(cbn; reflexivity) Hlen E ltac:(discriminate)) as H.
+      { apply alt_stops_at. right. right. exists (d ++ r). reflexivity. }
+      pose proof (IHa f 1%nat _ (eq_refl : noq u (g_bar :: d ++ r)) Hlen E ltac:(discriminate)) as H.
       apply (sp_alternative_mono _ _ _ _ _ H); [discriminate|]. rewrite app_length. lia.
     + rewrite app_length. lia.
     + intros g Hg. destruct g as [|g]; [cbn in Hg; lia|]. cbn [sp_bars]. rewrite N.eqb_refl.
       assert (Hlen' : (length (d ++ r) <= f)%nat) by (rewrite app_length in Hlen; cbn [length] in Hlen; lia).
-      destruct (IHd Hfd' r f Hs Hlen') as [l1 [E1 [Hl1 Hb]]]. rewrite E1. apply Hb. cbn [length] in Hg. lia.
-  - (* A_empty *) intros _ r f g res _ _ H _. cbn [length app]. rewrite Nat.add_0_r. exact H.
-  - (* A_term *) intros a t Ha IHa Ht IHt Hf r f g res Hq Hlen H Hne.
-    apply chars_ok_app in Hf. destruct Hf as [Hfa Hft].
-    destruct (proj1 (proj2 (proj2 (grammar_heads u))) t Ht) as [Hqt Hnt].
+      destruct (IHd f Hs Hlen') as [l1 [E1 [Hl1 Hb]]]. rewrite E1. apply Hb. cbn [length] in Hg. lia.
+  - (* A_empty *) intros r f g res _ _ H _. cbn [length app]. rewrite Nat.add_0_r. exact H.
+  - (* A_term *) intros a t r Ha IHa Ht IHt f g res Hq Hlen H Hne.
+    destruct (proj1 (proj2 (proj2 (grammar_heads u))) t r Ht) as [Hnt Hqt].
     rewrite <- app_assoc in *.
     assert (Hlen' : (length (t ++ r) <= f)%nat) by (rewrite app_length in Hlen; lia).
     assert (E : sp_alternative u (sp_disjunction u f) (g + length t) (t ++ r) = res).
     { destruct t as [|c t']; [contradiction|]. cbn [length]. rewrite Nat.add_succ_r. cbn [sp_alternative app].
-      change (c :: t' ++ r) with ((c :: t') ++ r). rewrite (IHt Hft r f Hq Hlen').
+      change (c :: t' ++ r) with ((c :: t') ++ r). rewrite (IHt f Hq Hlen').
       apply (sp_alternative_mono _ _ _ _ _ H Hne). lia. }
-    pose proof (IHa Hfa (t ++ r) f (g + length t)%nat res (noq_app t r Hnt Hqt) Hlen E Hne) as H'.
+    pose proof (IHa f (g + length t)%nat res Hqt Hlen E Hne) as H'.
     replace (g + length (a ++ t))%nat with (g + length t + length a)%nat by (rewrite app_length; lia). exact H'.
-  - (* T_assertion *) intros a Ha IHa Hf r f Hq Hlen. unfold sp_term. rewrite (IHa Hf r f Hlen).
-    destruct (quantifiable u (a ++ r)); [rewrite (sp_quant_noq r Hq)|]; reflexivity.
-  - (* T_qassertion_quant *) intros a q Hu Ha IHa Hq0 Hf r f Hq Hlen.
-    apply chars_ok_app in Hf. destruct Hf as [Hfa Hfq]. rewrite <- app_assoc in *.
-    destruct (IHa Hfa (q ++ r) f Hlen) as [E1 E2]. unfold sp_term. rewrite E1, E2, Hu. cbn [negb].
-    assert (E : snd (sp_quant (q ++ r)) = r).
-    { destruct Hq0 as [p Hp|p Hp]; destruct Hp; cbn [app sp_quant is_quant_char];
-        try rewrite N.eqb_refl; cbn [orb snd]; try reflexivity;
-        (destruct r as [|c r']; [reflexivity|]); cbn [noq] in Hq; unfold is_quant_char in Hq;
-        apply orb_false_iff in Hq; destruct Hq as [_ Hq]; rewrite Hq; reflexivity. }
-    rewrite E. reflexivity.
-  - (* T_atom *) intros a Ha IHa Hf r f Hq Hlen. unfold sp_term. destruct (IHa Hf r f Hlen) as [E1 E2].
-    rewrite E2, E1. rewrite (sp_quant_noq r Hq). reflexivity.
-  - (* T_atom_quant *) intros a q Ha IHa Hq0 Hf r f Hq Hlen.
-    apply chars_ok_app in Hf. destruct Hf as [Hfa Hfq]. rewrite <- app_assoc in *.
-    unfold sp_term. destruct (IHa Hfa (q ++ r) f Hlen) as [E1 E2]. rewrite E2, E1.
-    assert (E : snd (sp_quant (q ++ r)) = r).
-    { destruct Hq0 as [p Hp|p Hp]; destruct Hp; cbn [app sp_quant is_quant_char];
-        try rewrite N.eqb_refl; cbn [orb snd]; try reflexivity;
-        (destruct r as [|c r']; [reflexivity|]); cbn [noq] in Hq; unfold is_quant_char in Hq;
-        apply orb_false_iff in Hq; destruct Hq as [_ Hq]; rewrite Hq; reflexivity. }
-    rewrite E. reflexivity.
-  - (* As_caret *) intros _ r f _. reflexivity.
-  - (* As_dollar *) intros _ r f _. reflexivity.
-  - (* As_word_boundary *) intros _ r f _. reflexivity.
-  - (* As_not_word_boundary *) intros _ r f _. reflexivity.
-  - (* As_lookahead *) intros a Ha IHa Hf r f Hlen. apply (IHa Hf r f Hlen).
-  - (* As_lookbehind *) intros d Hd IHd Hf r f Hlen. chars_tail Hf 4.
+  - (* T_assertion *) intros a r Ha IHa f Hq Hlen. unfold sp_term. rewrite (IHa f Hlen).
+    destruct (quantifiable u (a ++ r)); [unfold sp_quantified; rewrite Hq|]; reflexivity.
+  - (* T_qassertion_quant *) intros a q r Hu Ha IHa Hq0 f Hq Hlen.
+    rewrite <- app_assoc in *.
+    destruct (IHa f Hlen) as [E1 E2]. unfold sp_term. rewrite E1, E2. replace (negb u) with true by (rewrite Hu; reflexivity).
+    unfold sp_quantified. rewrite (sp_quant_complete u q r Hq0 Hq). reflexivity.
+  - (* T_atom *) intros a r Ha IHa f Hq Hlen. unfold sp_term. destruct (IHa f Hlen) as [E1 E2].
+    rewrite E2, E1. unfold sp_quantified. rewrite Hq. reflexivity.
+  - (* T_atom_quant *) intros a q r Ha IHa Hq0 f Hq Hlen.
+    rewrite <- app_assoc in *.
+    unfold sp_term. destruct (IHa f Hlen) as [E1 E2]. rewrite E2, E1.
+    unfold sp_quantified. rewrite (sp_quant_complete u q r Hq0 Hq). reflexivity.
+  - (* As_caret *) intros r f _. reflexivity.
+  - (* As_dollar *) intros r f _. reflexivity.
+  - (* As_word_boundary *) intros r f _. reflexivity.
+  - (* As_not_word_boundary *) intros r f _. reflexivity.
+  - (* As_lookahead *) intros a r Ha IHa f Hlen. apply (IHa f Hlen).
+  - (* As_lookbehind *) intros d r Hd IHd f Hlen.
     cbn [app sp_assertion]. rewrite app_comm_cons'. cbn [N.eqb Pos.eqb is_eq_or_bang orb].
-    apply (P_D_group_body d IHd Hf). cbn [length app] in Hlen. rewrite app_comm_cons' in Hlen. cbn [length] in *. lia.
-  - (* As_neg_lookbehind *) intros d Hd IHd Hf r f Hlen. chars_tail Hf 4.
+    apply (P_D_group_body d r IHd). cbn [length app] in Hlen. rewrite app_comm_cons' in Hlen. cbn [length] in *. lia.
+  - (* As_neg_lookbehind *) intros d r Hd IHd f Hlen.
     cbn [app sp_assertion]. rewrite app_comm_cons'. cbn [N.eqb Pos.eqb is_eq_or_bang orb].
-    apply (P_D_group_body d IHd Hf). cbn [length app] in Hlen. rewrite app_comm_cons' in Hlen. cbn [length] in *. lia.
-  - (* QA_lookahead *) intros d Hd IHd Hf r f Hlen. chars_tail Hf 3. split.
+    apply (P_D_group_body d r IHd). cbn [length app] in Hlen. rewrite app_comm_cons' in Hlen. cbn [length] in *. lia.
+  - (* QA_lookahead *) intros d r Hd IHd f Hlen. split.
     + cbn [app sp_assertion]. rewrite app_comm_cons'. cbn [N.eqb Pos.eqb is_eq_or_bang orb].
-      apply (P_D_group_body d IHd Hf). cbn [length app] in Hlen. rewrite app_comm_cons' in Hlen. cbn [length] in *. lia.
+      apply (P_D_group_body d r IHd). cbn [length app] in Hlen. rewrite app_comm_cons' in Hlen. cbn [length] in *. lia.
     + cbn. reflexivity.
-  - (* QA_neg_lookahead *) intros d Hd IHd Hf r f Hlen. chars_tail Hf 3. split.
+  - (* QA_neg_lookahead *) intros d r Hd IHd f Hlen. split.
     + cbn [app sp_assertion]. rewrite app_comm_cons'. cbn [N.eqb Pos.eqb is_eq_or_bang orb].
-      apply (P_D_group_body d IHd Hf). cbn [length app] in Hlen. rewrite app_comm_cons' in Hlen. cbn [length] in *. lia.
+      apply (P_D_group_body d r IHd). cbn [length app] in Hlen. rewrite app_comm_cons' in Hlen. cbn [length] in *. lia.
     + cbn. reflexivity.
-  - (* At_char *) intros c Hc Hf r f _. cbn [app sp_atom sp_assertion].
-    apply chars_ok_cons in Hf. destruct Hf as [Hf _].
-    pose proof (frag_pattern_char u c Hf Hc) as Hs. rewrite Hs. cbn [negb]. split; [reflexivity|].
-    destruct (N.eqb_spec c g_caret) as [->|_]; [discriminate|]. destruct (N.eqb_spec c g_dollar) as [->|_]; [discriminate|].
-    destruct (N.eqb_spec c g_backslash) as [->|_]; [discriminate|].
-    destruct (N.eqb_spec c g_lparen) as [->|_]; [discriminate|]. reflexivity.
-  - (* At_dot *) intros _ r f _. split; reflexivity.
-  - (* At_escape *) intros c He Hne _ r f _. cbn [app sp_atom sp_assertion sp_escape]. cbn [N.eqb Pos.eqb negb syntax_character existsb orb].
+  - (* At_char *) intros c r Hc Hib f _. cbn [app]. split.
+    + cbn [sp_atom]. destruct (syntax_character c) eqn:Hs; cbn [negb]; [|reflexivity].
+      destruct u eqn:Eu; [cbn [pattern_char] in Hc; rewrite Hs in Hc; discriminate Hc|].
+      destruct (ext_syntax_cases c Hc Hs) as [->|[->| ->]]; cbn [N.eqb Pos.eqb g_dot g_backslash g_lparen g_lbrace g_rbrace g_rbracket orb]; try reflexivity.
+      destruct (sp_braced (g_lbrace :: r)) as [[[n om] r']|] eqn:Eb; [|reflexivity].
+      exfalso. apply sp_braced_sound in Eb. destruct Eb as [q [HB E]].
+      exact (Hib eq_refl q r' (ex_intro _ n (ex_intro _ om HB)) E).
+    + cbn [sp_assertion].
+      destruct (N.eqb_spec c g_caret) as [->|_]; [destruct u; discriminate|]. destruct (N.eqb_spec c g_dollar) as [->|_]; [destruct u; discriminate|].
+      destruct (N.eqb_spec c g_backslash) as [->|_]; [destruct u; discriminate|].
+      destruct (N.eqb_spec c g_lparen) as [->|_]; [destruct u; discriminate|]. reflexivity.
+  - (* At_dot *) intros r f _. split; reflexivity.
+  - (* At_escape *) intros c r He Hne f _. cbn [app sp_atom sp_assertion sp_escape]. cbn [N.eqb Pos.eqb negb syntax_character existsb orb].
     rewrite Hne. split; [|reflexivity].
     assert (Hok : escape_ok u c = true).
     { unfold escape_ok. inversion He as [c0 H0|c0 H0|c0 H0]; subst; rewrite H0; rewrite ?orb_true_r; reflexivity. }
     rewrite Hok. reflexivity.
-  - (* At_group *) intros d Hd IHd Hf r f Hlen. chars_tail Hf 1.
-    pose proof (proj1 (grammar_heads u) d Hd) as Hqd.
+  - (* At_group *) intros d r Hd IHd f Hlen.
+    pose proof (proj1 (grammar_heads u) d _ Hd) as Hqd.
     cbn [app sp_atom sp_assertion]. rewrite app_comm_cons'. cbn [N.eqb Pos.eqb negb syntax_character existsb orb].
     assert (Hbody : sp_group_body (sp_disjunction u f) (d ++ g_rparen :: r) = SOk true r).
-    { apply (P_D_group_body d IHd Hf). cbn [length app] in Hlen. rewrite app_comm_cons' in Hlen. cbn [length] in *. lia. }
-    destruct d as [|q d']; [split; [exact Hbody|reflexivity]|]. cbn [app]. cbn [noq] in Hqd.
-    unfold is_quant_char in Hqd. apply orb_false_iff in Hqd. destruct Hqd as [_ Hqd]. rewrite Hqd. split; [exact Hbody|reflexivity].
-  - (* At_noncapturing *) intros d Hd IHd Hf r f Hlen. chars_tail Hf 3.
+    { apply (P_D_group_body d r IHd). cbn [length app] in Hlen. rewrite app_comm_cons' in Hlen. cbn [length] in *. lia. }
+    destruct d as [|q d']; [split; [exact Hbody|reflexivity]|]. cbn [app] in *.
+    destruct Hqd as [Hqd|Hqd]; [discriminate|]. rewrite (noq_not_question _ q _ Hqd eq_refl). split; [exact Hbody|reflexivity].
+  - (* At_noncapturing *) intros d r Hd IHd f Hlen.
     cbn [app sp_atom sp_assertion]. rewrite app_comm_cons'. cbn [N.eqb Pos.eqb negb syntax_character existsb orb is_eq_or_bang].
     split; [|reflexivity].
-    apply (P_D_group_body d IHd Hf). cbn [length app] in Hlen. rewrite app_comm_cons' in Hlen. cbn [length] in *. lia.
+    apply (P_D_group_body d r IHd). cbn [length app] in Hlen. rewrite app_comm_cons' in Hlen. cbn [length] in *. lia.
 Qed.
 
-Theorem sp_pattern_complete l : Pattern u l -> chars_ok u l = true -> sp_pattern u l = SOk tt [].
+Theorem sp_pattern_complete l : Pattern u l -> sp_pattern u l = SOk tt [].
 Proof.
-  intros Hp Hf. unfold sp_pattern.
-  pose proof (P_D_disjunction l (proj1 completeness_mut l Hp) Hf [] (S (length l)) (or_introl eq_refl)) as H.
+  intros Hp. unfold sp_pattern.
+  pose proof (P_D_disjunction l [] (proj1 completeness_mut l [] Hp) (S (length l)) (or_introl eq_refl)) as H.
   rewrite app_nil_r in H. rewrite H; [reflexivity|lia].
 Qed.
 End Complete.
 
-Theorem recognises_iff_Pattern u l : chars_ok u l = true -> (recognises u l = true <-> Pattern u l).
+Theorem recognises_iff_Pattern u l : recognises u l = true <-> Pattern u l.
 Proof.
-  intros Hf. unfold recognises. split.
+  unfold recognises. split.
   - destruct (sp_pattern u l) as [a r| |] eqn:E; try discriminate. intros _. exact (sp_pattern_sound u l a r E).
-  - intros Hp. rewrite (sp_pattern_complete u l Hp Hf). reflexivity.
+  - intros Hp. rewrite (sp_pattern_complete u l Hp). reflexivity.
 Qed.
 
 Print Assumptions recognises_iff_Pattern.
